@@ -62,7 +62,10 @@ func (g *Gen) genAlias() *Call {
 	amt := g.amount("al-amount", h.e.Value)
 	g.Shape = append(g.Shape, "alias")
 	var c *Call
-	switch g.pick("al-kind", 5) {
+	switch g.pick("al-kind", 6) {
+	case 5: // plain burn naming the whole key of an NFT / SFT holding (a burn of NFT quantity without the NFT burn role)
+		c = &Call{Fn: refBuiltInFunctionESDTBurn, Args: hbs(full, amt)}
+		c.Caller, c.Rcv = cp(h.addr), cp(refESDTSC)
 	case 0: // NFT transfer reading the entry under a shorter identifier
 		k := 1 + g.pick("al-cut", 2)
 		c = &Call{Fn: refBuiltInFunctionESDTNFTTransfer, Args: hbs(full[:len(full)-k], full[len(full)-k:], amt, to)}
